@@ -400,22 +400,7 @@ fn exec_c<C: Suite>(scen: &Scenario) -> Exec {
     // crafted verifier randomness: blinders with special bit patterns (1, 2^k, q-1, alternating bits ...) exercise
     // the multiscalar multiplication on scalars that random sampling never produces
     {
-        let craft = |s: frost::Scalar<C>| -> Option<Vec<u8>> {
-            let le = {
-                let mut b = F::<C>::little_endian_serialize(&s).as_ref().to_vec();
-                b.resize(if b.len() > 40 { 114 } else { 64 }, 0);
-                b
-            };
-            let be = sc_bytes::<C>(&s);
-            for cand in [le, be] {
-                let mut r = SimRng::replay(cand.clone(), stream(0, 0, "c19/never"));
-                let got = F::<C>::random(&mut r);
-                if got == s && r.total() == cand.len() {
-                    return Some(cand);
-                }
-            }
-            None
-        };
+        let craft = |s: frost::Scalar<C>| -> Option<Vec<u8>> { craft_draw::<C>(s) };
         let two = sc_from_u64::<C>(2);
         let mut pow = |k: u32| {
             let mut x = one::<C>();
